@@ -16,7 +16,8 @@
 (***************************************************************************)
 EXTENDS Integers, Sequences, FiniteSets, TLC, Json
 
-CONSTANTS Shapes      \* set of [l, r, br, m, ncols, kind]  (m modes -> exact rank 2m; kind "exact" | "data")
+CONSTANTS Shapes      \* set of [l, r, br, m, ncols, kind, cut]  (m modes -> rank 2m; kind "exact" | "data";
+                      \*  cut: the identification is truncated at order 2 (m - cut), below the rank when cut > 0)
 
 VARIABLES sh, out, act
 vars == <<sh, out, act>>
@@ -33,7 +34,8 @@ Init == sh \in Shapes /\ out = <<>> /\ act = [name |-> "Init"]
 Perturb ==
     /\ out = <<>>
     /\ out' = [rows |-> Rows(sh), cols |-> Cols(sh),
-               orders |-> {n \in 2..(2 * sh.m) : n % 2 = 0},      \* even orders up to the true order
+               ordmax |-> 2 * (sh.m - sh.cut),
+               orders |-> {n \in 2..(2 * (sh.m - sh.cut)) : n % 2 = 0},      \* even orders up to the truncation order
                aggregate |-> "sum_of_squares_over_columns",
                ncols |-> sh.ncols]
     /\ UNCHANGED sh
